@@ -115,6 +115,17 @@ def alias_involved(scope, ent):
     return prog_key in _ALIASED.get("set", set())
 
 
+def alias_visible_from(scope, ent):
+    """Is `ent` accessible from `scope` (or one of its hosts, shadowing ignored) under a name that is not its own?"""
+    s = scope
+    while s is not None:
+        for n2, e2 in s.use_visible().items():
+            if e2 is ent and n2 != ent.name.lower():
+                return True
+        s = s.parent
+    return False
+
+
 def collect_aliased(prog):
     out = set()
 
@@ -186,7 +197,9 @@ def check_program(ctx, prog, layout, picks, scratch):
                 cands = [e] if e is not None else universe.get(n, [])
                 if context == "use-only":
                     cands = [x for x in universe.get(n, [])]
-                if o.scope is not None and any(alias_involved(o.scope, x) for x in cands):
+                # known: an entity visible here under an alias is offered under the alias only, its own name is dropped.
+                # Only that: the missing label must be the entity's own name and an alias of it must be visible from this scope
+                if o.scope is not None and any(alias_involved(o.scope, x) and x.name.lower() == n and alias_visible_from(o.scope, x) for x in cands):
                     label = "completion:missing:entity-is-also-use-associated-under-an-alias"
                 if context in ("member", "call-member"):
                     b = o.stmt.toks[o.tok_i - 2]
@@ -213,11 +226,15 @@ def check_program(ctx, prog, layout, picks, scratch):
                     why = "leaked-through-a-default-PRIVATE-module"
                 elif o.scope is not None and n in o.scope.accessible():
                     why = f"accessible-but-wrong-kind({o.scope.accessible()[n].kind})"
+                elif o.scope is not None and any(fws.hidden_by_rename_list(o.scope, n, e) for e in ents):
+                    why = "name-hidden-by-a-rename-list"
                 elif not n.startswith(prefix.lower()):
                     why = "does-not-start-with-prefix"
                 label = f"completion:{context}:extra:{why}"
                 if why.startswith("leaked"):
                     label = "completion:extra:leaked-through-a-default-PRIVATE-module"
+                if why == "name-hidden-by-a-rename-list":
+                    label = "completion:extra:name-hidden-by-a-rename-list"
                 if context == "use-only":
                     mod = [t for t in o.stmt.toks if isinstance(t, fmodel.Ref) and t.role == "usemod"][0].ent
                     if any(e_.name.lower() == n and k_ != n for k_, e_ in mod.inner.exported().items()):
